@@ -597,6 +597,27 @@ func (f *Frame) resolveType(s string) types.Type {
 			return types.NewPointer(t)
 		}
 		return nil
+	case strings.HasPrefix(s, "map["):
+		// Go map type map[K]V (a reference into the map heaps)
+		depth, end := 0, -1
+		for i := 3; i < len(s); i++ {
+			if s[i] == '[' {
+				depth++
+			} else if s[i] == ']' {
+				depth--
+				if depth == 0 {
+					end = i
+					break
+				}
+			}
+		}
+		if end > 0 {
+			k, v := f.resolveType(s[4:end]), f.resolveType(s[end+1:])
+			if k != nil && v != nil {
+				return types.NewMap(k, v)
+			}
+		}
+		return nil
 	case s == "mathint":
 		return mathInt
 	case s == "ref":
